@@ -1951,6 +1951,25 @@ class Stream:
 
         self.change_state(State.IDLE)
 
+    async def abort(self) -> None:
+        """Abort the stream and transit to IDLE state."""
+        if self.state == State.IDLE:
+            raise InvalidStateError('current state is IDLE')
+
+        logger.debug('closing local endpoint')
+        await self.local_endpoint.close()
+
+        logger.debug('aborting remote endpoint')
+        await self.remote_endpoint.abort()
+
+        # Release any channels we may have created
+        self.change_state(State.ABORTING)
+        if self.rtp_channel:
+            await self.rtp_channel.disconnect()
+            self.rtp_channel = None
+
+        self.change_state(State.IDLE)
+
     async def on_set_configuration_command(
         self, configuration: Iterable[ServiceCapabilities]
     ) -> Message | None:
